@@ -820,7 +820,12 @@ def gen_attr(rng):
         return dict(kind=0, t=t, data=hx(rng.bytes(n)))
     if m < 95:
         return dict(kind=0, t=79, data=hx(rng.bytes(rng.range(1, 253))))       # EAP-Message: needs M-A
-    return dict(kind=0, t=rng.range(1, 255), data=hx(rng.bytes(rng.range(1, 60))))
+    t = rng.range(1, 255)
+    while t in (2, 80):
+        # User-Password and Message-Authenticator occur at most once per packet (RFC 2865 5.2, RFC 2869 5.14) and are placed
+        # by gen_radius_case itself: a second, random one would make "the" password / authenticator of the packet ambiguous
+        t = rng.range(1, 255)
+    return dict(kind=0, t=t, data=hx(rng.bytes(rng.range(1, 60))))
 
 
 def _fixed_attr(rng):
